@@ -52,6 +52,8 @@ def cells(tier):
     for op in TABLE:
         level, has_t, has_src, has_new = OPS[op]
         ks = (1,) if op in ONE else (2,) if op in TWO else (1, 2, 3)
+        if op == 'roItemMoveMultiple':
+            ks = (0,) + ks          # a single itemID is the reference item: nothing is moved
         tks = ['present', 'blank'] + (['absent'] if op in ABSENT_OK else []) if has_t else [None]
         for k in ks:
             for tk in tks:
